@@ -1780,7 +1780,11 @@ class Dict(Generic, ValueSpecBase):
     if base.schema:
       if not self._schema:
         self._schema = copy.deepcopy(base.schema)
-        self._default = copy.deepcopy(base._default)  # pylint: disable=protected-access
+        if base._default is None and not self._is_noneable:  # pylint: disable=protected-access
+          # A default of None (from a noneable base) is not acceptable here.
+          self._default = self._schema.apply({}, allow_partial=True)
+        else:
+          self._default = copy.deepcopy(base._default)  # pylint: disable=protected-access
       else:
         self._schema.extend(base.schema)
         self._default = self._schema.apply({}, allow_partial=True)
